@@ -2,8 +2,8 @@
 
    Layout: 1 doubles (exact truncation / comparison facts, decoding), 2 the specification
    (clamp, documented text -> integer), 3 strtoll/strtoull, 4 accessor theorems
-   (get_*_spec, *_no_ub; `_partial` + `_refuted` where the current code fails the full
-   statement), 5 int -> double conversion, 6 set/get identity, 7 json_object_int_inc,
+   (get_*_spec, *_no_ub, all at full strength since the `fix:` commits of C10; the lemmas about
+   the old `>` comparison are kept as [dbl_get_lh_ub]), 5 int -> double conversion, 6 set/get identity, 7 json_object_int_inc,
    8 non-vacuity. *)
 From JC Require Import Base Value NumModel.
 Local Open Scope Z_scope.
@@ -168,6 +168,14 @@ Definition spec_int (lo hi nanv : Z) (o : jv) : Z * errno :=
               end
   end.
 
+(* uint64: a text with a '-' sign has no conversion at all — json_parse_uint64 refuses it, "-0"
+   included (pinned by tests/test_parse_int64) — hence 0 with EINVAL; everything else as above *)
+Definition spec_uint (o : jv) : Z * errno :=
+  match o with
+  | JStr s => if str_minus s then (0, EINVAL) else spec_int 0 UINT64_MAX 0 o
+  | _ => spec_int 0 UINT64_MAX 0 o
+  end.
+
 Definition ret_of (p : Z * errno) : res Z := Ret (fst p) (snd p).
 
 (* representation invariant of the integer nodes *)
@@ -228,19 +236,25 @@ Proof.
   - rewrite H. reflexivity.
 Qed.
 
+(* skipping whitespace twice skips nothing more *)
 Lemma skip_space_pu s : fst (skip_space (pu_skip s)) = fst (skip_space s).
 Proof.
-  induction s as [|a s IH]; [reflexivity|]. cbn [pu_skip].
-  destruct (a =? 32) eqn:E; [|reflexivity].
-  apply Z.eqb_eq in E. subst a. rewrite IH. cbn. destruct (skip_space s). reflexivity.
+  unfold pu_skip. induction s as [|a s IH]; [reflexivity|]. cbn [skip_space].
+  destruct (is_space a) eqn:E.
+  - destruct (skip_space s) as [r n]. cbn [fst] in *. exact IH.
+  - cbn [fst skip_space]. rewrite E. reflexivity.
+Qed.
+
+(* the hand-written '-' test sees exactly the sign the documented rule sees *)
+Lemma hd_pu_minus_eq s : hd_is 45 (pu_skip s) = str_minus s.
+Proof.
+  unfold pu_skip, str_minus. destruct (skip_space s) as [s1 n]. cbn [fst].
+  destruct s1 as [|c t]; [reflexivity|]. cbn [hd_is scan_sign].
+  destruct (c =? 45); [reflexivity|]. destruct (c =? 43); reflexivity.
 Qed.
 
 Lemma hd_pu_minus s : hd_is 45 (pu_skip s) = true -> str_minus s = true.
-Proof.
-  intros H. unfold str_minus. pose proof (skip_space_pu s) as P.
-  destruct (pu_skip s) as [|c t]; [discriminate|]. cbn in H. apply Z.eqb_eq in H. subst c.
-  cbn in P. destruct (skip_space s) as [s1 n]. cbn in P. subst s1. reflexivity.
-Qed.
+Proof. rewrite hd_pu_minus_eq. auto. Qed.
 
 (* without a '-' sign json_parse_uint64 follows the documented rule *)
 Lemma parse_uint64_nominus s : str_minus s = false ->
@@ -263,10 +277,9 @@ Proof.
   unfold clamp. consts. crunch; cbn in *; try reflexivity; try discriminate; try (exfalso; lia).
 Qed.
 
-(* what the current code does when, after spaces only, the text starts with '-' *)
-Lemma parse_uint64_minus_after_spaces s : hd_is 45 (pu_skip s) = true ->
-  json_parse_uint64 s = (1, None, pu_minus_errno).
-Proof. intros H. unfold json_parse_uint64. rewrite H. reflexivity. Qed.
+(* a '-' sign (after any whitespace) is refused with EINVAL *)
+Lemma parse_uint64_minus s : str_minus s = true -> json_parse_uint64 s = (1, None, EINVAL).
+Proof. intros H. unfold json_parse_uint64. rewrite hd_pu_minus_eq, H. reflexivity. Qed.
 
 (* -- the functional rule [str_int] against a declarative reading of "isspace* sign? digit+ rest" *)
 Definition dec_value (ds : list byte) : Z := fold_left (fun a c => a * 10 + (c - 48)) ds 0.
@@ -373,7 +386,7 @@ Definition dbl_get_hl (lo hi chi nanv : Z) (d : dval) : res Z :=
   else if disnan d then Ret nanv EINVAL
   else match cast_dbl lo hi d with Some t => Ret t E_NONE | None => UB end.
 
-(* the shape after the repair `>=` (not the current code; see [dbl_get_ge_spec]) *)
+(* the shape of get_int64 / get_uint64 since the `>=` repair; see [dbl_get_ge_spec] *)
 Definition dbl_get_hl_ge (lo hi chi nanv : Z) (d : dval) : res Z :=
   if dge d chi then Ret hi ERANGE
   else if dlt d lo then Ret lo ERANGE
@@ -427,7 +440,7 @@ Proof.
       crunch; cmps; try reflexivity; try discriminate; try (exfalso; lia); try (f_equal; lia).
 Qed.
 
-(* outside the guard the cast is reached with a value that does not fit: undefined *)
+(* why `>=` is needed: with `>` (the code before the repair) the value hi + 1 reaches the cast *)
 Lemma dbl_get_lh_ub lo hi d : lo <= hi -> TWO52 <= hi -> fin_ok d ->
   dval_trunc_is d (hi + 1) -> forall nanv, dbl_get_lh lo hi (hi + 1) nanv d = UB.
 Proof.
@@ -442,7 +455,7 @@ Proof.
   rewrite Ht'. replace (hi + 1 <=? hi) with false by lia. rewrite Bool.andb_false_r. reflexivity.
 Qed.
 
-(* the repaired comparison `>=` satisfies the full statement, no guard *)
+(* the comparison `>=` satisfies the full statement, no guard *)
 Lemma dbl_get_ge_spec lo hi nanv d :
   lo <= hi -> TWO52 <= hi -> fin_ok d ->
   dbl_get_hl_ge lo hi (hi + 1) nanv d = ret_of (spec_of_dbl lo hi nanv d).
@@ -466,9 +479,6 @@ Proof.
     crunch; cmps; try reflexivity; try discriminate; try (exfalso; lia); try (f_equal; lia).
 Qed.
 
-Definition is_dbl_val (o : jv) (v : Z) : Prop :=
-  exists bits t, o = JDouble bits t /\ dtrunc (decode bits) = Some v.
-
 (* ---------------- json_object_get_int *)
 Theorem get_int_spec e0 o : wf o ->
   get_int e0 o = ret_of (spec_int INT32_MIN INT32_MAX INT32_MIN o).
@@ -487,182 +497,58 @@ Theorem get_int_no_ub e0 o : wf o -> get_int e0 o <> UB.
 Proof. intros W. rewrite get_int_spec by assumption. discriminate. Qed.
 
 (* ---------------- json_object_get_int64 *)
-Definition get_int64_spec_full : Prop := forall e0 o, wf o ->
-  get_int64 e0 o = ret_of (spec_int INT64_MIN INT64_MAX INT64_MIN o).
-
 Lemma get_int64_dbl_shape e0 bits t :
-  get_int64 e0 (JDouble bits t) = dbl_get_hl INT64_MIN INT64_MAX (INT64_MAX + 1) INT64_MIN (decode bits).
+  get_int64 e0 (JDouble bits t) = dbl_get_hl_ge INT64_MIN INT64_MAX (INT64_MAX + 1) INT64_MIN (decode bits).
 Proof. reflexivity. Qed.
 
-(* guard: the node is not the double whose value is exactly 2^63 *)
-Theorem get_int64_spec_partial e0 o : wf o -> ~ is_dbl_val o TWO63 ->
+Theorem get_int64_spec e0 o : wf o ->
   get_int64 e0 o = ret_of (spec_int INT64_MIN INT64_MAX INT64_MIN o).
 Proof.
-  intros W G. destruct o as [| b | z | u | bits t | s | l | l]; try reflexivity; cbn [wf] in W.
+  intros W. destruct o as [| b | z | u | bits t | s | l | l]; try reflexivity; cbn [wf] in W.
   - unfold get_int64, ret_of, spec_int, clamp, range_errno. cbn [fst snd]. fin.
   - unfold get_int64, ret_of, spec_int, clamp, range_errno, gl_uint_sat, u64_to_i64. cbn [fst snd]. fin.
-  - rewrite get_int64_dbl_shape, dbl_get_hl_lh by (try apply decode_fin_ok; consts; lia).
-    apply dbl_get_lh_spec; [consts; lia | apply decode_fin_ok | right].
-    repeat split; [consts; lia|]. intros H. apply G. exists bits, t. split; [reflexivity|exact H].
+  - rewrite get_int64_dbl_shape.
+    apply dbl_get_ge_spec; [consts; lia | consts; lia | apply decode_fin_ok].
   - unfold get_int64. rewrite parse_int64_spec. unfold spec_int, ret_of.
     destruct (str_int s) as [v|]; [|reflexivity]. cbn [fst snd negb Z.eqb].
     unfold clamp, range_errno, in_i64. fin.
 Qed.
 
-(* the guard is exact: outside it the result is undefined *)
-Theorem get_int64_ub_iff e0 o : wf o -> (get_int64 e0 o = UB <-> is_dbl_val o TWO63).
-Proof.
-  intros W. split.
-  - intros H. destruct o as [| b | z | u | bits t | s | l | l]; try discriminate.
-    + unfold get_int64 in H. destruct (gl_uint_sat u); discriminate.
-    + destruct (dtrunc (decode bits)) as [v|] eqn:T.
-      * destruct (Z.eq_dec v TWO63) as [->|Hne]; [exists bits, t; auto|].
-        rewrite get_int64_spec_partial in H; [discriminate|exact W|].
-        intros (b' & t' & E & T'). inversion E; subst. congruence.
-      * rewrite get_int64_spec_partial in H; [discriminate|exact W|].
-        intros (b' & t' & E & T'). inversion E; subst. congruence.
-    + unfold get_int64 in H. rewrite parse_int64_spec in H. destruct (str_int s); discriminate.
-  - intros (bits & t & -> & T).
-    rewrite get_int64_dbl_shape, dbl_get_hl_lh by (try apply decode_fin_ok; consts; lia).
-    apply dbl_get_lh_ub; [consts; lia | consts; lia | apply decode_fin_ok | exact T].
-Qed.
+Theorem get_int64_no_ub e0 o : wf o -> get_int64 e0 o <> UB.
+Proof. intros W. rewrite get_int64_spec by assumption. discriminate. Qed.
 
 Definition B64_2P63 : Z := 4890909195324358656.     (* 0x43e0000000000000, the double 2^63 *)
 Definition B64_2P64 : Z := 4895412794951729152.     (* 0x43f0000000000000, the double 2^64 *)
 
-Theorem get_int64_spec_refuted :
-  exists e0 o, wf o /\ get_int64 e0 o <> ret_of (spec_int INT64_MIN INT64_MAX INT64_MIN o).
-Proof. exists E_NONE, (JDouble B64_2P63 None). split; [exact I|]. vm_compute. discriminate. Qed.
-
-Theorem get_int64_spec_full_refuted : ~ get_int64_spec_full.
-Proof. intros F. destruct get_int64_spec_refuted as (e0 & o & W & H). exact (H (F e0 o W)). Qed.
-
-Theorem get_int64_no_ub_refuted : exists e0 o, wf o /\ get_int64 e0 o = UB.
-Proof. exists E_NONE, (JDouble B64_2P63 None). split; [exact I|]. vm_compute. reflexivity. Qed.
-
-Theorem get_int64_no_ub_partial e0 o : wf o -> ~ is_dbl_val o TWO63 -> get_int64 e0 o <> UB.
-Proof. intros W G. rewrite get_int64_spec_partial by assumption. discriminate. Qed.
-
 (* ---------------- json_object_get_uint64 *)
-Definition get_uint64_spec_full : Prop := forall e0 o, wf o ->
-  get_uint64 e0 o = ret_of (spec_int 0 UINT64_MAX 0 o).
-
 Lemma get_uint64_dbl_shape e0 bits t :
-  get_uint64 e0 (JDouble bits t) = dbl_get_hl 0 UINT64_MAX (UINT64_MAX + 1) 0 (decode bits).
+  get_uint64 e0 (JDouble bits t) = dbl_get_hl_ge 0 UINT64_MAX (UINT64_MAX + 1) 0 (decode bits).
 Proof. reflexivity. Qed.
 
-(* guard on strings: no '-' sign, or the text denotes 0.  (Sufficient; the only further texts on
-   which the code agrees with the documented rule are "<non-space whitespace>-<no digit>".) *)
-Definition gu_str_guard (s : list byte) : Prop := str_minus s = false \/ str_int s = Some 0.
-
-Definition gu_guard (o : jv) : Prop :=
-  ~ is_dbl_val o TWO64 /\ (forall s, o = JStr s -> gu_str_guard s).
-
-Lemma str_minus_zero_uint64 s : str_minus s = true -> str_int s = Some 0 ->
-  json_parse_uint64 s = (1, None, E_NONE) \/ json_parse_uint64 s = (0, Some 0, E_NONE).
+Theorem get_uint64_spec e0 o : wf o -> get_uint64 e0 o = ret_of (spec_uint o).
 Proof.
-  intros Hm Hz. unfold json_parse_uint64.
-  destruct (hd_is 45 (pu_skip s)) eqn:Hh; [left; reflexivity|right].
-  unfold strtoull. unfold str_minus in Hm. unfold str_int in Hz.
-  pose proof (skip_space_pu s) as P. pose proof (skip_space_cnt (pu_skip s)).
-  destruct (skip_space (pu_skip s)) as [s1 nws]. destruct (skip_space s) as [s1' nws']. cbn in P. subst s1'.
-  pose proof (scan_sign_cnt s1). destruct (scan_sign s1) as [[neg s2] nsg]. subst neg.
-  pose proof (scan_digits_mono s2 0 0 ltac:(lia)). destruct (scan_digits s2 0 0) as [mag nd]. cbn in *.
-  destruct (nd =? 0) eqn:E; [discriminate|].
-  assert (Hmag : mag = 0) by (injection Hz; lia). rewrite Hmag.
-  change (UINT64_MAX <? 0) with false. change (to_u64 (- 0)) with 0. cbv iota beta.
-  replace (nws + nsg + nd =? 0) with false by lia. reflexivity.
-Qed.
-
-Theorem get_uint64_spec_partial e0 o : wf o -> gu_guard o ->
-  get_uint64 e0 o = ret_of (spec_int 0 UINT64_MAX 0 o).
-Proof.
-  intros W [G1 G2]. destruct o as [| b | z | u | bits t | s | l | l]; try reflexivity; cbn [wf] in W.
-  - unfold get_uint64, ret_of, spec_int, clamp, range_errno, gu_int_neg, to_u64. cbn [fst snd]. consts.
+  intros W. destruct o as [| b | z | u | bits t | s | l | l]; try reflexivity; cbn [wf] in W.
+  - unfold get_uint64, ret_of, spec_uint, spec_int, clamp, range_errno, gu_int_neg, to_u64. cbn [fst snd]. consts.
     destruct (z <? 0) eqn:E.
     + cmps; try reflexivity; exfalso; lia.
     + rewrite Z.mod_small by lia. cmps; try reflexivity; exfalso; lia.
-  - unfold get_uint64, ret_of, spec_int, clamp, range_errno. cbn [fst snd]. fin.
-  - rewrite get_uint64_dbl_shape, dbl_get_hl_lh by (try apply decode_fin_ok; consts; lia).
-    apply dbl_get_lh_spec; [consts; lia | apply decode_fin_ok | right].
-    repeat split; [consts; lia|]. intros H. apply G1. exists bits, t. split; [reflexivity|exact H].
-  - destruct (G2 s eq_refl) as [Hm|Hz].
-    + unfold get_uint64. rewrite (parse_uint64_nominus s Hm). unfold spec_int, ret_of.
-      pose proof (strtoll_spec s) as _.
+  - unfold get_uint64, ret_of, spec_uint, spec_int, clamp, range_errno. cbn [fst snd]. fin.
+  - rewrite get_uint64_dbl_shape.
+    apply dbl_get_ge_spec; [consts; lia | consts; lia | apply decode_fin_ok].
+  - unfold get_uint64, spec_uint. destruct (str_minus s) eqn:Hm.
+    + rewrite (parse_uint64_minus s Hm). reflexivity.
+    + rewrite (parse_uint64_nominus s Hm). unfold spec_int, ret_of.
       destruct (str_int s) as [v|] eqn:Hv; [|reflexivity]. cbn [fst snd negb Z.eqb].
       assert (0 <= v).
       { unfold str_int, str_minus in *. destruct (skip_space s) as [s1 n1]. destruct (scan_sign s1) as [[neg s2] n2].
         pose proof (scan_digits_mono s2 0 0 ltac:(lia)). destruct (scan_digits s2 0 0) as [mag nd]. cbn in *.
         subst neg. destruct (nd =? 0); inversion Hv. lia. }
       unfold clamp, range_errno. fin.
-    + destruct (str_minus s) eqn:Hm.
-      * unfold get_uint64, spec_int, ret_of. rewrite Hz.
-        destruct (str_minus_zero_uint64 s Hm Hz) as [-> | ->]; reflexivity.
-      * unfold get_uint64. rewrite (parse_uint64_nominus s Hm). unfold spec_int, ret_of. rewrite Hz. reflexivity.
 Qed.
 
-Theorem get_uint64_dbl_ub_iff e0 bits t :
-  get_uint64 e0 (JDouble bits t) = UB <-> dtrunc (decode bits) = Some TWO64.
-Proof.
-  split.
-  - intros H. destruct (dtrunc (decode bits)) as [v|] eqn:T.
-    + destruct (Z.eq_dec v TWO64) as [->|Hne]; [reflexivity|].
-      rewrite get_uint64_spec_partial in H; [discriminate|exact I|].
-      split; [|discriminate]. intros (b' & t' & E & T'). inversion E; subst. congruence.
-    + rewrite get_uint64_spec_partial in H; [discriminate|exact I|].
-      split; [|discriminate]. intros (b' & t' & E & T'). inversion E; subst. congruence.
-  - intros T. rewrite get_uint64_dbl_shape, dbl_get_hl_lh by (try apply decode_fin_ok; consts; lia).
-    apply dbl_get_lh_ub; [consts; lia | consts; lia | apply decode_fin_ok | exact T].
-Qed.
+Theorem get_uint64_no_ub e0 o : wf o -> get_uint64 e0 o <> UB.
+Proof. intros W. rewrite get_uint64_spec by assumption. discriminate. Qed.
 
-(* strings never reach undefined behaviour, whatever the sign *)
-Lemma get_uint64_str_no_ub e0 s : get_uint64 e0 (JStr s) <> UB.
-Proof.
-  unfold get_uint64, json_parse_uint64.
-  destruct (hd_is 45 (pu_skip s)); [cbn; discriminate|].
-  unfold strtoull. pose proof (skip_space_cnt (pu_skip s)). destruct (skip_space (pu_skip s)) as [s1 nws].
-  pose proof (scan_sign_cnt s1). destruct (scan_sign s1) as [[neg s2] nsg].
-  pose proof (scan_digits_mono s2 0 0 ltac:(lia)). destruct (scan_digits s2 0 0) as [mag nd]. cbn in *.
-  destruct (nd =? 0) eqn:E; [cbn; discriminate|].
-  destruct (UINT64_MAX <? mag); cbv iota beta;
-    replace (nws + nsg + nd =? 0) with false by lia; crunch; cbn; discriminate.
-Qed.
-
-Theorem get_uint64_ub_iff e0 o : wf o -> (get_uint64 e0 o = UB <-> is_dbl_val o TWO64).
-Proof.
-  intros W. split.
-  - intros H. destruct o as [| b | z | u | bits t | s | l | l]; try discriminate.
-    + unfold get_uint64 in H. destruct (gu_int_neg z); discriminate.
-    + exists bits, t. split; [reflexivity|]. apply (get_uint64_dbl_ub_iff e0 bits t). exact H.
-    + exfalso. exact (get_uint64_str_no_ub e0 s H).
-  - intros (bits & t & -> & T). apply get_uint64_dbl_ub_iff. exact T.
-Qed.
-
-Theorem get_uint64_no_ub_partial e0 o : wf o -> ~ is_dbl_val o TWO64 -> get_uint64 e0 o <> UB.
-Proof. intros W G H. apply G. apply (get_uint64_ub_iff e0 o W). exact H. Qed.
-
-Theorem get_uint64_no_ub_refuted : exists e0 o, wf o /\ get_uint64 e0 o = UB.
-Proof. exists E_NONE, (JDouble B64_2P64 None). split; [exact I|]. vm_compute. reflexivity. Qed.
-
-(* three independent refutations of the full statement *)
-Theorem get_uint64_spec_refuted_dbl :
-  exists e0 o, wf o /\ get_uint64 e0 o <> ret_of (spec_int 0 UINT64_MAX 0 o).
-Proof. exists E_NONE, (JDouble B64_2P64 None). split; [exact I|]. vm_compute. discriminate. Qed.
-
-Theorem get_uint64_spec_full_refuted : ~ get_uint64_spec_full.
-Proof. intros F. destruct get_uint64_spec_refuted_dbl as (e0 & o & W & H). exact (H (F e0 o W)). Qed.
-
-(* "\t-5": the value 2^64 - 5 is returned (documented: 0 with ERANGE) *)
-Theorem get_uint64_str_neg_wrap_refuted :
-  exists s, get_uint64 E_NONE (JStr s) = Ret (TWO64 - 5) E_NONE /\
-            ret_of (spec_int 0 UINT64_MAX 0 (JStr s)) = Ret 0 ERANGE.
-Proof. exists [9; 45; 53]. split; vm_compute; reflexivity. Qed.
-
-(* "-5" and "-x": the failure is reported with errno left at 0 *)
-Theorem get_uint64_str_minus_errno_refuted :
-  exists s1 s2, get_uint64 E_NONE (JStr s1) = Ret 0 E_NONE /\ ret_of (spec_int 0 UINT64_MAX 0 (JStr s1)) = Ret 0 ERANGE /\
-                get_uint64 E_NONE (JStr s2) = Ret 0 E_NONE /\ ret_of (spec_int 0 UINT64_MAX 0 (JStr s2)) = Ret 0 EINVAL.
-Proof. exists [45; 53], [32; 45; 120]. repeat split; vm_compute; reflexivity. Qed.
 (* ================================================================== 5. int -> double *)
 
 (* the finite double d has exactly the integer value z *)
@@ -867,10 +753,6 @@ Definition inc_post (o : jv) (val : Z) (o' : jv) : Prop :=
   ival o' = clamp INT64_MIN UINT64_MAX (ival o + val) /\
   (is_uint o' = true <-> INT64_MAX < ival o' \/ (is_uint o = true /\ 0 <= ival o')).
 
-Definition inc_exact_full : Prop := forall o val,
-  wf o -> is_intnode o = true -> INT64_MIN <= val <= INT64_MAX ->
-  exists o', int_inc o val = IOk 1 o' /\ inc_post o val o'.
-
 Lemma mod64_small x : 0 <= x < TWO64 -> x mod TWO64 = x.
 Proof. apply Z.mod_small. Qed.
 
@@ -887,13 +769,20 @@ Ltac ipost :=
   try (intros _; first [left; consts; lia | right; split; [reflexivity | consts; lia]]);
   try (let H := fresh in intros [H | [? H]]; first [consts; lia | discriminate]).
 
-(* guard: not (uint64 node and increment INT64_MIN) *)
-Theorem inc_exact_partial o val :
+(* the magnitude computed in unsigned arithmetic, C: -(uint64_t)val, is -val for EVERY negative
+   int64 — including INT64_MIN, where (uint64_t)(-val) was undefined *)
+Lemma neg_mag_unsigned val : INT64_MIN <= val < 0 -> to_u64 (- to_u64 val) = - val.
+Proof.
+  intros H. unfold to_u64. rewrite (mod64_neg val) by (consts; lia).
+  replace (- (val + TWO64)) with (- val + (-1) * TWO64) by ring.
+  rewrite Z.mod_add by (unfold TWO64; lia). apply Z.mod_small. consts. lia.
+Qed.
+
+Theorem inc_exact o val :
   wf o -> is_intnode o = true -> INT64_MIN <= val <= INT64_MAX ->
-  ~ (is_uint o = true /\ val = INT64_MIN) ->
   exists o', int_inc o val = IOk 1 o' /\ inc_post o val o'.
 Proof.
-  intros W K Hv G. destruct o as [| b | z | u | bits t | s | l | l]; try discriminate; cbn [wf] in W.
+  intros W K Hv. destruct o as [| b | z | u | bits t | s | l | l]; try discriminate; cbn [wf] in W.
   - (* int64 node *)
     unfold int_inc, sub_i64, add_i64, in_i64, obind, to_u64.
     destruct (val >? 0) eqn:P.
@@ -914,55 +803,30 @@ Proof.
         replace ((INT64_MIN <=? z + 0) && (z + 0 <=? INT64_MAX)) with true by (consts; lia).
         eexists. split; [reflexivity|]. ipost.
   - (* uint64 node *)
-    assert (Hne : val <> INT64_MIN) by (intros ->; apply G; auto).
-    unfold int_inc, inc_neg_mag, neg_i64, add_i64, in_i64, obind, to_u64, u64_to_i64.
+    unfold int_inc, inc_neg_mag, add_i64, in_i64, obind, u64_to_i64.
     destruct (val >? 0) eqn:P.
-    + rewrite (mod64_small val), (mod64_small (UINT64_MAX - val)) by (consts; lia). cbn [andb].
+    + unfold to_u64. rewrite (mod64_small val), (mod64_small (UINT64_MAX - val)) by (consts; lia). cbn [andb].
       destruct (u >? UINT64_MAX - val) eqn:O.
       * eexists. split; [reflexivity|]. ipost.
       * replace (val <? 0) with false by lia. rewrite mod64_small by (consts; lia).
         eexists. split; [reflexivity|]. ipost.
     + cbn [andb]. destruct (val <? 0) eqn:N.
-      * replace ((INT64_MIN <=? - val) && (- val <=? INT64_MAX)) with true by (consts; lia).
-        rewrite (mod64_small (- val)) by (consts; lia).
+      * rewrite !neg_mag_unsigned by lia.
         destruct (u <? - val) eqn:L.
         -- replace (u <=? INT64_MAX) with true by (consts; lia).
            replace ((INT64_MIN <=? u + val) && (u + val <=? INT64_MAX)) with true by (consts; lia).
            eexists. split; [reflexivity|]. ipost.
         -- replace (u >=? - val) with true by lia. rewrite mod64_small by (consts; lia).
            eexists. split; [reflexivity|]. ipost.
-      * assert (val = 0) by lia. subst val. rewrite (mod64_small 0), mod64_small by (consts; lia).
+      * assert (val = 0) by lia. subst val. unfold to_u64. rewrite (mod64_small 0), mod64_small by (consts; lia).
         eexists. split; [reflexivity|]. ipost.
 Qed.
 
-(* the guard is exact *)
-Theorem inc_ub_iff o val : wf o -> INT64_MIN <= val <= INT64_MAX ->
-  (int_inc o val = IUB <-> is_uint o = true /\ val = INT64_MIN).
+Theorem inc_no_ub o val : wf o -> INT64_MIN <= val <= INT64_MAX -> int_inc o val <> IUB.
 Proof.
-  intros W Hv. split.
-  - intros H. destruct (is_intnode o) eqn:K.
-    + destruct (is_uint o) eqn:U.
-      * destruct (Z.eq_dec val INT64_MIN) as [E|Hne]; [auto|].
-        destruct (inc_exact_partial o val W K Hv) as (o' & E & _); [intros [_ ?]; congruence | congruence].
-      * destruct (inc_exact_partial o val W K Hv) as (o' & E & _); [intros [? _]; congruence | congruence].
-    + destruct o; try discriminate K; discriminate H.
-  - intros [U ->]. destruct o; try discriminate U. reflexivity.
-Qed.
-
-Theorem inc_no_ub_partial o val : wf o -> INT64_MIN <= val <= INT64_MAX ->
-  ~ (is_uint o = true /\ val = INT64_MIN) -> int_inc o val <> IUB.
-Proof. intros W Hv G H. apply G. apply (inc_ub_iff o val W Hv). exact H. Qed.
-
-Theorem inc_exact_refuted :
-  exists o val, wf o /\ is_intnode o = true /\ INT64_MIN <= val <= INT64_MAX /\ int_inc o val = IUB.
-Proof. exists (JUint 5), INT64_MIN. repeat split; try (vm_compute; congruence). Qed.
-
-Theorem inc_exact_full_refuted : ~ inc_exact_full.
-Proof.
-  intros F.
-  assert (H : exists o', int_inc (JUint 5) INT64_MIN = IOk 1 o' /\ inc_post (JUint 5) INT64_MIN o').
-  { apply F; [split; discriminate | reflexivity | split; discriminate]. }
-  destruct H as (o' & E & _). vm_compute in E. discriminate.
+  intros W Hv. destruct (is_intnode o) eqn:K.
+  - destruct (inc_exact o val W K Hv) as (o' & E & _). congruence.
+  - destruct o; try discriminate K; discriminate.
 Qed.
 
 Theorem inc_not_int o val : is_intnode o = false -> int_inc o val = IOk 0 o.
@@ -992,6 +856,17 @@ Example ex_inc_sat : int_inc (JUint UINT64_MAX) 7 = IOk 1 (JUint UINT64_MAX) /\ 
 Proof. split; vm_compute; reflexivity. Qed.
 Example ex_z_to_b64 : z_to_b64 (TWO53 + 1) = 4845873199050653696 /\ z_to_b64 (TWO53 + 3) = 4845873199050653698.
 Proof. split; vm_compute; reflexivity. Qed.  (* ties to even: 2^53+1 -> 2^53, 2^53+3 -> 2^53+4 *)
+(* the witnesses of the five repaired defects now give the documented results *)
+Example ex_fixed_2p63 : get_int64 E_NONE (JDouble B64_2P63 None) = Ret INT64_MAX ERANGE.
+Proof. vm_compute. reflexivity. Qed.
+Example ex_fixed_2p64 : get_uint64 E_NONE (JDouble B64_2P64 None) = Ret UINT64_MAX ERANGE.
+Proof. vm_compute. reflexivity. Qed.
+Example ex_fixed_inc : int_inc (JUint 5) INT64_MIN = IOk 1 (JInt (5 + INT64_MIN)) /\
+                       int_inc (JUint UINT64_MAX) INT64_MIN = IOk 1 (JUint INT64_MAX).
+Proof. split; vm_compute; reflexivity. Qed.
+Example ex_fixed_str : get_uint64 E_NONE (JStr [9; 45; 53]) = Ret 0 EINVAL /\ get_uint64 E_NONE (JStr [45; 53]) = Ret 0 EINVAL /\
+                       get_uint64 E_NONE (JStr [32; 45; 120]) = Ret 0 EINVAL /\ get_uint64 E_NONE (JStr [45; 48]) = Ret 0 EINVAL.
+Proof. repeat split; vm_compute; reflexivity. Qed.
 Example ex_decomp : str_int [32; 9; 45; 49; 50; 120] = Some (-12) /\ str_minus [32; 9; 45; 49; 50; 120] = true.
 Proof. split; vm_compute; reflexivity. Qed.
 
